@@ -265,6 +265,7 @@ def run(tier):
             set_rule(denied, '!')
         before = _digest()
         del rec.events[:]
+        resp = None
         try:
             resp = _send(env, method, path, body, ctype)
             status = resp.status_int
@@ -278,7 +279,8 @@ def run(tier):
         evs = [e for e in rec.events if e['k'] in ('enforce', 'db', 'rpc')]
         after = _digest()
         r = dict(op=opid, method=method, path=path, rules=rules, deny=deny_idx, events=evs, status=status, changed=before != after,
-                 expectEnforce=True, kind='plain', cur='', req='', force=False, descr=False)
+                 expectEnforce=True, kind='plain', cur='', req='', force=False, descr=False, foreignReturned=False)
+        r['_body'] = resp.text[:200000] if status != 599 and hasattr(resp, 'text') else ''
         if extra:
             r.update(extra)
         recs.append(r)
@@ -319,6 +321,74 @@ def run(tier):
                 one('tasks:update:state', 'PUT', '/v2/tasks/%s' % f['tk_%s_%s' % (wfst, cur)], json.dumps({'state': req, 'reset': True}),
                     'application/json', ['tasks:update'], 0, extra=dict(kind='task_put', cur=cur, req=req))
 
+    # ---- listing across projects: a non-admin caller of project A asks for project B's rows
+    PA, PB = '11111111-1111-4111-8111-111111111111', '22222222-2222-4222-8222-222222222222'
+    from mistral import auth as mauth
+
+    class FakeAuth(object):
+        def authenticate(self, req):
+            return None
+
+    saved_handler = mauth._IMPL_AUTH_HANDLER
+    mauth._IMPL_AUTH_HANDLER = FakeAuth()
+    env['CONF'].set_override('auth_enable', True, group='pecan')
+    try:
+        db_api = env['db_api']
+        mdb.wipe()
+        import datetime as _dt
+        for proj in (PA, PB):
+            mdb.set_ctx(mdb.ctx(proj))
+            tag = 'a' if proj == PA else 'b'
+            with db_api.transaction():
+                wfd = db_api.create_workflow_definition({'name': 'wf' + tag, 'definition': WF % ('wf' + tag), 'spec': {}, 'scope': 'private', 'namespace': ''})
+                db_api.create_workbook({'name': 'wb' + tag, 'definition': 'x', 'spec': {}, 'tags': [], 'scope': 'private', 'namespace': ''})
+                db_api.create_action_definition({'name': 'act' + tag, 'definition': 'x', 'spec': {}, 'is_system': False, 'scope': 'private', 'namespace': ''})
+                ex = db_api.create_workflow_execution({'name': 'wf' + tag, 'workflow_name': 'wf' + tag, 'workflow_id': wfd.id, 'state': 'RUNNING', 'spec': {},
+                                                       'params': {}, 'input': {}, 'output': {}, 'context': {}, 'workflow_namespace': ''})
+                tk_ = db_api.create_task_execution({'name': 't', 'workflow_execution_id': ex.id, 'workflow_name': 'wf' + tag, 'state': 'RUNNING', 'spec': {},
+                                                    'in_context': {}, 'published': {}, 'runtime_context': {}, 'workflow_id': wfd.id, 'type': 'ACTION'})
+                db_api.create_action_execution({'name': 'std.echo', 'state': 'RUNNING', 'input': {}, 'is_sync': True, 'runtime_context': {},
+                                                'task_execution_id': tk_.id, 'workflow_namespace': ''})
+                db_api.create_environment({'name': 'env' + tag, 'description': 'd', 'variables': {'secret': tag}, 'scope': 'private'})
+                db_api.create_cron_trigger({'name': 'ct' + tag, 'pattern': '* * * * *', 'workflow_name': 'wf' + tag, 'workflow_id': wfd.id,
+                                            'next_execution_time': _dt.datetime(2031, 1, 1), 'workflow_input': {'secret': tag},
+                                            'workflow_params': {}, 'scope': 'private'})
+                db_api.create_event_trigger({'name': 'et' + tag, 'exchange': 'e', 'topic': 't', 'event': 'ev' + tag, 'workflow_id': wfd.id,
+                                             'workflow_input': {}, 'workflow_params': {}, 'scope': 'private'})
+            mdb.set_ctx(None)
+        for res in ('workflows', 'workbooks', 'actions', 'executions', 'tasks', 'action_executions', 'environments', 'cron_triggers',
+                    'event_triggers', 'code_sources', 'dynamic_actions'):
+            for q in ('', '?project_id=%s' % PB, '?all_projects=true'):
+                env['state']['ctx'] = mdb.ctx(PA, admin=False)
+                before = _digest()
+                del rec.events[:]
+                resp = None
+                try:
+                    resp = _send(env, 'GET', '/v2/%s%s' % (res, q), None, None)
+                    status = resp.status_int
+                except Exception as e:
+                    status = 599
+                finally:
+                    mdb.set_ctx(None)
+                evs = [e for e in rec.events if e['k'] in ('enforce', 'db', 'rpc')]
+                foreign = False
+                if resp is not None and status == 200:
+                    try:
+                        body = resp.json
+                        for k_, v_ in body.items():
+                            if isinstance(v_, list):
+                                for item in v_:
+                                    if isinstance(item, dict) and item.get('project_id') == PB and item.get('scope', 'private') != 'public':
+                                        foreign = True
+                    except Exception:
+                        pass
+                recs.append(dict(op='%s:list:foreign' % res, method='GET', path='/v2/%s%s' % (res, q), rules=['%s:list' % res], deny=0, events=evs,
+                                 status=status, changed=before != _digest(), expectEnforce=(q == ''), kind='xproject', cur='', req='', force=False,
+                                 descr=False, foreignReturned=foreign))
+    finally:
+        env['CONF'].set_override('auth_enable', False, group='pecan')
+        mauth._IMPL_AUTH_HANDLER = saved_handler
+
     # ---- exposed controller methods vs catalogue (static enumeration of the controller tree)
     exposed = _walk_controllers()
     covered = set(r['op'].split(':')[0] + ':' + r['method'] for r in recs)
@@ -328,14 +398,14 @@ def run(tier):
     tf = os.path.join(d, 'requests.ndjson')
     with open(tf, 'w') as fh:
         for x in recs:
-            fh.write(json.dumps(x) + '\n')
+            fh.write(json.dumps({k_: v_ for k_, v_ in x.items() if k_ != '_body'}) + '\n')
     consts = 'CONSTANTS\n Operations = {}\n Tables = {%s}\n' % ', '.join('"%s"' % t for t in TABLES if not t.startswith(('scheduled', 'delayed')))
     with open(os.path.join(d, 'RestGuardTrace.cfg'), 'w') as fh:
         fh.write('SPECIFICATION TSpec\n' + consts + 'CONSTRAINT Report\nCHECK_DEADLOCK FALSE\n')
     rt = common.run_tlc(os.path.join(d, 'RestGuardTrace.tla'), os.path.join(d, 'RestGuardTrace.cfg'), workers=1,
                         env={'TRACE_FILE': tf}, timeout=900)
     cases = {int(m.group(1)): [x == 'TRUE' for x in m.groups()[1:]]
-             for m in re.finditer(r'<<"case", (\d+), (TRUE|FALSE), (TRUE|FALSE), (TRUE|FALSE), (TRUE|FALSE), (TRUE|FALSE), (TRUE|FALSE)>>', rt.out)}
+             for m in re.finditer(r'<<"case", (\d+), (TRUE|FALSE), (TRUE|FALSE), (TRUE|FALSE), (TRUE|FALSE), (TRUE|FALSE), (TRUE|FALSE), (TRUE|FALSE)>>', rt.out)}
     if len(cases) != len(recs):
         raise common.MachineryError('RestGuardTrace judged %d of %d requests\n%s' % (len(cases), len(recs), rt.out[-2500:]))
     # model-level run of RestGuard itself
@@ -347,7 +417,7 @@ def run(tier):
     rm = common.run_tlc(os.path.join(d, 'MC_RestGuard.tla'), os.path.join(d, 'MC_RestGuard.cfg'), timeout=600)
     if not rm.ok:
         raise common.MachineryError('RestGuard model violates its own invariants\n' + rm.out[-2000:])
-    names = ['EnforceFirst', 'AlwaysEnforces', 'DeniedNoEffect', 'ExecPutGuard', 'TaskPutGuard', 'ExecDeleteGuard']
+    names = ['EnforceFirst', 'AlwaysEnforces', 'DeniedNoEffect', 'ExecPutGuard', 'TaskPutGuard', 'ExecDeleteGuard', 'CrossProjectNeedsAdminRule']
     nontrivial = set()
     for i, x in enumerate(recs):
         if x['deny'] or x['kind'] != 'plain':
